@@ -23,7 +23,10 @@ META = {
                   "consulted after each refresh with the clock's current time and its answer slept, no loop refresh started "
                   "after done was closed other than the in-flight one or the named TickBeatsDone branch, Shutdown's result = "
                   "the final refresh's error; done is closed before the final refresh, so a tick offered while it is in flight "
-                  "can never be taken (the CloseLate variant of the model shows the extra refresh otherwise). Every generated behaviour is run against the real code and compared call by "
+                  "can never be taken (the CloseLate variant of the model shows the extra refresh otherwise); the context "
+                  "passed to Start is environment state (live, already cancelled, cancelled right after Start or while "
+                  "the worker waits): it reaches the refresher through the constructor and never stops the loop "
+                  "(StopsOnlyOnShutdown). Every generated behaviour is run against the real code and compared call by "
                   "call; random real runs (<= 12 services, <= 40 ticks, Shutdown while parked / right after Start / during a "
                   "refresh in flight) are validated back against the same actions.",
     "level_note": "TickBeatsDone (a tick already pending when Shutdown closes done may still be served) is modelled but never "
@@ -34,7 +37,7 @@ META = {
 
 SIG_INV = ["Registered", "STypeOK", "AtMostOnce", "NothingBeforeShutdownSignal", "ReverseOrder", "AtReturn", "StatusOnlyAtReturn"]
 RW_INV = ["WTypeOK", "OneRefreshPerTick", "CtxFromConstructor", "ErrorsHandledOnce", "ScheduleConsulted",
-          "NoRefreshAfterShutdown", "DoneClosedFirst", "WindowNeverTicks", "ShutdownResult"]
+          "NoRefreshAfterShutdown", "DoneClosedFirst", "WindowNeverTicks", "StopsOnlyOnShutdown", "ShutdownResult"]
 PLAIN = '{"nil", "err", "panic"}'
 # Outcome kinds: data the code might inspect; the requirement does not depend on them.
 KINDS = ('{"nil", "err", "deadline", "canceled", "wdeadline", "wcanceled", "join", "eof", '
@@ -61,9 +64,13 @@ def sig_consts(maxn, maxpre=2, maxtrail=1, panic_aborts=False, kinds=False, reg=
     return c
 
 
-def rw_consts(maxticks, tbd, close_late=False):
-    return {"MaxTicks": maxticks, "ROSChoices": "{TRUE, FALSE}", "RefOutcomes": '{"nil", "err"}',
-            "AllowTBD": "TRUE" if tbd else "FALSE", "CloseLate": "TRUE" if close_late else "FALSE"}
+def rw_consts(maxticks, tbd, close_late=False, stop_on_cancel=False, gen=False):
+    c = {"MaxTicks": maxticks, "ROSChoices": "{TRUE, FALSE}", "RefOutcomes": '{"nil", "err"}',
+         "AllowTBD": "TRUE" if tbd else "FALSE", "CloseLate": "TRUE" if close_late else "FALSE",
+         "SctxInit": '{"live", "cancelled"}', "StopOnCancel": "TRUE" if stop_on_cancel else "FALSE"}
+    if gen:
+        c["CancelUpTo"] = 2
+    return c
 
 
 def run(ctx):
@@ -85,6 +92,8 @@ def run(ctx):
         "TickBeatsDone is modelled, not provoked: whether a refresh for a tick already pending at Shutdown counts as "
         "'after Shutdown' is not settled by the statement",
         "Shutdown is called once; Start before Shutdown",
+        "the context passed to Start may be cancelled at any time (already at Start, right after it, while the worker "
+        "waits); it reaches the refresher through the constructor, the worker itself must not stop on it",
         "Add is not called concurrently with Handle (documented); what the caller does to a slice after Add returned "
         "must not matter",
     ]
@@ -104,7 +113,7 @@ def run(ctx):
                                % r.violated)
         ctx.extra["design_level_reproduction_of_b5e2710"] = "AtReturn violated when a panic aborts the loop (as expected)"
     # Outcome kinds (errors the code might inspect, panic values): same invariants, kinds as environment choice.
-    write_cfg(d / "SigMC_kinds.cfg", "SSpec", sig_consts(3 if q else 4, 0, 1, kinds=True), invariants=SIG_INV,
+    write_cfg(d / "SigMC_kinds.cfg", "SSpec", sig_consts(2 if q else 4, 0, 1, kinds=True), invariants=SIG_INV,
               properties=["LaterSignalsChangeNothing", "EventuallyReturns"])
     ctx.tlc(d, "SignalHandler", "SigMC_kinds.cfg", label="signal-mc-kinds", timeout=1200)
     # Registration as actions: every plan of Add calls, the caller reusing / zeroing / overwriting its buffer.
@@ -123,11 +132,22 @@ def run(ctx):
                                "got %r" % r.violated)
         ctx.extra["design_level_registration_check"] = ("%s violated when Add keeps the caller's slice and the caller "
                                                         "reuses its buffer (as expected)" % r.violated)
-    write_cfg(d / "RWMC_run.cfg", "WSpec", rw_consts(4 if q else 6, True), invariants=RW_INV,
+    write_cfg(d / "RWMC_run.cfg", "WSpec", rw_consts(3 if q else 5, True), invariants=RW_INV,
               properties=["StoppedIsFinal", "EventuallyStops"])
     ctx.tlc(d, "RefreshWorker", "RWMC_run.cfg", label="refresh-mc", timeout=1200)
     # A Shutdown that closes done only on return (`defer close(w.done)`), shown on the design: a tick taken
     # while the final refresh is in flight starts one more loop refresh.
+    # A loop that also returns when the START context is done (`case <-ctx.Done(): return`), shown on the design.
+    write_cfg(d / "RWMC_stoponcancel.cfg", "WSpec", rw_consts(2, True, stop_on_cancel=True),
+              invariants=["StopsOnlyOnShutdown"])
+    if demos:
+        r = ctx.tlc(d, "RefreshWorker", "RWMC_stoponcancel.cfg",
+                    label="refresh-mc-stop-on-start-cancel(expected to fail)", expect_ok=False, count=False)
+        if r.violated != "StopsOnlyOnShutdown":
+            raise CheckerError("the StopOnCancel variant of RefreshWorker.tla should violate StopsOnlyOnShutdown, "
+                               "got %r" % r.violated)
+        ctx.extra["design_level_start_context_check"] = ("StopsOnlyOnShutdown violated when the loop watches the "
+                                                         "Start context (as expected)")
     write_cfg(d / "RWMC_closelate.cfg", "WSpec", rw_consts(2, True, close_late=True),
               invariants=["NoRefreshAfterShutdown"])
     if demos:
@@ -165,9 +185,9 @@ def run_g(ctx, d, q):
               sig_consts(4, 0, 0, reg=True, outcomes='{"nil", "err"}', shut='{"TERM"}'),
               invariants=["SEmit", "Registered", "AtReturn", "ReverseOrder", "AtMostOnce"])
     ctx.tlc(d, "SignalHandlerGen", "SigGen_reg.cfg", label="signal-gen-registration", timeout=1200)
-    write_cfg(d / "RWGen_run.cfg", "WGSpec", rw_consts(5 if q else 8, False),
+    write_cfg(d / "RWGen_run.cfg", "WGSpec", rw_consts(5 if q else 8, False, gen=True),
               invariants=["WEmit", "OneRefreshPerTick", "ErrorsHandledOnce", "ScheduleConsulted",
-                          "SequentialNoRefreshAfterShutdown", "DoneClosedFirst", "WindowNeverTicks",
+                          "SequentialNoRefreshAfterShutdown", "DoneClosedFirst", "WindowNeverTicks", "StopsOnlyOnShutdown",
                           "ShutdownResult"])
     ctx.tlc(d, "RefreshWorkerGen", "RWGen_run.cfg", label="refresh-gen", timeout=1200)
     nsig = count_lines(d / "signal_vectors.ndjson")
